@@ -136,7 +136,7 @@ func c14Families(tier string) []explore.Family {
 	}
 	nCfg := 64
 	G, A, B, M := len(graphs), len(c14Args), len(c14Bodies), len(mains)
-	return []explore.Family{{Name: "include-configurations", Count: int64(nCfg * G * A * B * M * 2), Run: func(i int64, r *explore.Rec) {
+	return []explore.Family{c14ChangeFamily(), {Name: "include-configurations", Count: int64(nCfg * G * A * B * M * 2), Run: func(i int64, r *explore.Rec) {
 		rx := radix{i}
 		noPath := rx.next(2) == 1
 		mi, bi, ai, gi, cfg := rx.next(M), rx.next(B), rx.next(A), rx.next(G), rx.next(nCfg)
@@ -288,6 +288,87 @@ func c14Families(tier string) []explore.Family {
 	}}}
 }
 
+// c14ChangeFamily: on ONE engine and one parsed main template, the included file goes through every sequence
+// of two or three states from {disk v1, disk v2, deleted (cache fallback), deleted (no cache)}; every render
+// must reflect the file as it is at that moment (a compiled-include cache must not serve a superseded file).
+func c14ChangeFamily() explore.Family {
+	states := []string{"disk-v1", "disk-v2", "cache-only", "missing"}
+	n := len(states)
+	return explore.Family{Name: "file-changes-between-renders", Count: int64(n * n * n * 2 * 2), Run: func(i int64, r *explore.Rec) {
+		rx := radix{i}
+		nested, withCache := rx.next(2) == 1, rx.next(2) == 1
+		seq := []string{states[rx.next(n)], states[rx.next(n)], states[rx.next(n)]}
+		dir := filepath.Join(c14.root, "chg")
+		os.RemoveAll(dir)
+		os.MkdirAll(dir, 0o755)
+		mainPath := filepath.Join(dir, "main.html")
+		eng := liquid.NewEngine()
+		target := "a.inc"
+		if nested {
+			// main -> outer (stable) -> a
+			if err := os.WriteFile(filepath.Join(dir, "outer.inc"), []byte(`o({% include "a.inc" %})`), 0o644); err != nil {
+				panic(err)
+			}
+			target = "outer.inc"
+		}
+		if withCache {
+			if _, err := eng.ParseTemplateAndCache([]byte("CACHED{{ top }}"), filepath.Join(dir, "a.inc"), 1); err != nil {
+				panic(err)
+			}
+		}
+		tpl, err := eng.ParseTemplateLocation([]byte(`M[{% include "`+target+`" %}]`), mainPath, 1)
+		if err != nil {
+			panic("harness: " + err.Error())
+		}
+		var hist []string
+		for _, st := range seq {
+			hist = append(hist, st)
+			full := filepath.Join(dir, "a.inc")
+			want, wantErr := "", false
+			switch st {
+			case "disk-v1":
+				os.WriteFile(full, []byte("V1{{ top }}"), 0o644)
+				want = "V1T"
+			case "disk-v2":
+				os.WriteFile(full, []byte("version two {{ top | downcase }}"), 0o644)
+				want = "version two t"
+			default:
+				os.Remove(full)
+				if withCache {
+					want = "CACHEDT"
+				} else {
+					wantErr = true
+				}
+			}
+			if nested {
+				want = "o(" + want + ")"
+			}
+			want = "M[" + want + "]"
+			r.Eval()
+			var o Outcome
+			o.Panic = explore.Safe(func() {
+				out, err := tpl.Render(map[string]any{"top": "T"})
+				o.Out, o.Err = string(out), err
+			})
+			desc := func() any {
+				return map[string]any{"file_states_in_order": hist, "nested": nested, "cache_entry_registered": withCache, "main": `M[{% include "` + target + `" %}]`}
+			}
+			r.Class(fmt.Sprintf("change/%s/%s", st, o.Class()))
+			switch {
+			case o.Panic != nil:
+				r.Violation(o.Panic.Key(), desc(), "output or SourceError", o.String())
+				return
+			case wantErr && o.Err == nil:
+				r.Violation("N2:no-error-after-file-removed", desc(), "a SourceError (file removed, nothing cached)", o.String())
+				return
+			case !wantErr && (o.Err != nil || o.Out != want):
+				r.Violation("N1:stale-or-wrong-content-after-file-change", desc(), want, o.String())
+				return
+			}
+		}
+	}}
+}
+
 // firstMissingReached tells whether the first failure on the render path is a missing file
 // (an earlier failing body would be reported instead).
 func firstMissingReached(g c14Graph, states map[string]int, resolved map[string]string, used map[string]string) bool {
@@ -306,7 +387,7 @@ func init() {
 		ID:    "C14",
 		Level: "fault_enumeration",
 		Rule: "three files (a, a2, sub/b relative to the main template) each independently on disk / in the cache only / in both with different content / missing (4^3 = 64 configurations; 'missing' is the injected fault) x 7 acyclic include graphs (one whose file edges carry trim markers) x 8 argument forms (literal, variable, variable assigned earlier, filtered expression, map property, three non-strings) x 4 included bodies (reads variables, assigns, failing filter, syntax error) x main template parsed at 2 (quick) / 3 directory depths and without a path; " +
-			"oracle = reference inliner (textual substitution of resolved content) rendered by the engine itself, or a SourceError with os.IsNotExist cause; class = (graph, argument form, outcome kind)",
+			"a second family changes the included file between renders of one parsed template on one engine (all sequences of 3 states from {disk v1, disk v2, removed with/without cache entry}, direct and nested); oracle = reference inliner (textual substitution of resolved content) rendered by the engine itself, or a SourceError with os.IsNotExist cause; class = (graph, argument form, outcome kind)",
 		Assumptions: []string{
 			"nested includes are only generated between files of the main template's own directory, where 'relative to the includer' and 'relative to the main template' coincide (the statement does not separate them)",
 			"cache entries are registered under the cleaned joined path",
